@@ -381,6 +381,9 @@ func ruleC09(c *Ctx) {
 					} else {
 						c.bad("C09-R2", fname, "map update "+ap(e.X), pos, "assignment to an entry of a possibly nil map")
 					}
+				case EvMakeSlice:
+					nPre++
+					k.checkMake(t, e, fname, pos)
 				case EvTypeAssert:
 					c.bad("C09-R3", fname, "type assertion "+ap(e.X), pos, "type assertion without comma-ok in the inbound cone panics when the dynamic type differs")
 				case EvDiv:
@@ -490,6 +493,48 @@ func (k *c09) checkSlice(t *Terminal, e *Event, fname, pos string) {
 		o := c.bad("C09-R1", fname, what, pos, "slice bounds may be out of range: path facts do not establish 0 <= "+ap(e.Lo)+" <= "+ap(e.Hi)+" <= len("+ap(e.X)+")")
 		o.Path = t.pathDesc(c.P)
 	}
+}
+
+// checkMake: make([]T, n, m) panics unless 0 <= n <= m and m*sizeof(T) is allocatable. Sizes that are constants or
+// lengths of memory that already exists (plus constants) are fine; any other size needs path facts bounding it.
+func (k *c09) checkMake(t *Terminal, e *Event, fname, pos string) {
+	c := k.c
+	what := "make with size " + ap(e.Lo) + " / " + ap(e.Hi)
+	if s := c.P.exprAt(e.Instr.Pos()); s != "" {
+		what = "allocation " + s
+	}
+	if ok, why := makeSizeSafe(t, e); ok {
+		c.ok("C09-R3", fname, what, pos, why)
+	} else {
+		o := c.bad("C09-R3", fname, what, pos, "make panics (len/cap out of range) or allocates without bound: "+why)
+		o.Path = t.pathDesc(c.P)
+	}
+}
+
+// makeSizeSafe decides the obligation of a MakeSlice event from the path facts up to it.
+func makeSizeSafe(t *Terminal, e *Event) (bool, string) {
+	b := newBounds(t, e.Seq)
+	ln, cp := b.linOf(e.Lo), b.linOf(e.Hi)
+	if !b.prove(ln) {
+		return false, "length " + ap(e.Lo) + " is not known to be >= 0"
+	}
+	if !b.prove(cp.add(ln, -1)) {
+		return false, "capacity " + ap(e.Hi) + " is not known to be >= the length"
+	}
+	existing := true
+	for term, coef := range cp.t {
+		if coef > 0 && !(strings.HasPrefix(term, "len(") || strings.HasPrefix(term, "cap(")) {
+			existing = false
+		}
+	}
+	if existing {
+		return true, "size is a constant or the length of existing memory plus a constant"
+	}
+	lim := lin{t: map[string]int64{}, k: 1 << 31}
+	if b.prove(lim.add(cp, -1)) {
+		return true, "path facts bound the size by a constant"
+	}
+	return false, "capacity " + ap(e.Hi) + " comes from data and is not bounded on this path"
 }
 
 func (k *c09) checkCall(t *Terminal, e *Event, fname, pos string, nPre, nNil *int) {
